@@ -16,7 +16,9 @@ import (
 // probeVals: one validator (address 0) of power p in a set of total power N.
 type probeVals struct{ total, p uint64 }
 
-func (v probeVals) TotalVotingPower(types.Height) types.VotingPower { return types.VotingPower(v.total) }
+func (v probeVals) TotalVotingPower(types.Height) types.VotingPower {
+	return types.VotingPower(v.total)
+}
 func (v probeVals) ValidatorVotingPower(types.Height, *Adr) types.VotingPower {
 	return types.VotingPower(v.p)
 }
